@@ -107,4 +107,27 @@ Theorem C11_equal_penalty_solutions_chosen_by_limit_F43 :
   decs_eqb (decisions_of tie_narrow) (decisions_of tie_wide) = false.
 Proof. exact equal_penalty_solutions_chosen_by_limit. Qed.
 
+(* the listed findings F24, F26, F30 as witness theorems of the search model (by computation): clauses 2 and 3 are false of the search as it is *)
+From PasfmtVerif Require Import Model.WrapSearch Model.WrapFormat Proofs.WrapTieProofs Proofs.WrapFindingsProofs.
+Theorem C11_wider_limit_more_breaks_without_overflow_F26 :
+  all_within 40 (f26_run 40) = true /\
+  all_within 45 (f26_run 45) = true /\
+  breaks_of (f26_run 40) = 3%nat /\
+  breaks_of (f26_run 45) = 4%nat /\
+  penalty_of (f26_run 40) 0 = Some 256 /\ penalty_of (f26_run 45) 0 = Some 6.
+Proof. exact wider_limit_more_breaks_without_overflow_F26. Qed.
+
+Theorem C11_wider_limit_more_breaks_in_overflow_regime_F24 :
+  all_within 16 (f24_run 16) = false /\
+  all_within 20 (f24_run 20) = true /\
+  breaks_of (f24_run 16) = 5%nat /\
+  breaks_of (f24_run 20) = 6%nat /\
+  penalty_of (f24_run 16) 1 = Some 1048600 /\ penalty_of (f24_run 20) 1 = Some 2051.
+Proof. exact wider_limit_more_breaks_in_overflow_regime_F24. Qed.
+
+Theorem C11_fits_at_narrow_limit_not_at_wider_F30 :
+  all_within 18 (f30_run 18) = true /\
+  all_within 19 (f30_run 19) = false /\ penalty_of (f30_run 19) 3 = Some 2097167.
+Proof. exact fits_at_narrow_limit_not_at_wider_F30. Qed.
+
 
